@@ -167,6 +167,27 @@ class Overlay:
         return None
 
 
+class PlainFS:
+    """a single MemoryFS (or an AltrootFS over one) driven by the same history runner: multi-step histories expose state
+    that the implementation carries between calls beside the tree itself (counters, caches)"""
+
+    def __init__(self, sr, u, cfg, kind='mem', lens=(1, 0, 2)):
+        self.sr, self.u, self.cfg, self.n = sr, u, cfg, 1
+        st = Setup(sr, u)
+        if kind == 'mem':
+            sr.do('fs R mem')
+        else:
+            sr.do('fs U mem')
+            sr.do('join uP U %s' % hx(b'p'))
+            sr.do('create_dir uP')
+            sr.do('fs R alt uP')
+        st.define_paths('R')
+        self.model = st.build(tuple((v, k) for v, k, s_ in cfg), lens=list(lens), tag='c')
+        self.layer_trees = [self.model]
+        self.layer_fs = []
+        self.log = []
+
+
 HIST_OPS = ['create_dir', 'write', 'append', 'remove_file', 'remove_dir', 'remove_dir_all', 'create_dir_all']
 OBS_OPS = ['read', 'metadata', 'exists', 'read_dir', 'read_to_string']
 TIME_OPS = ['set_time_c', 'set_time_m', 'set_time_a']
@@ -191,10 +212,13 @@ def run_history_case(prog, params):
                 sr.outcomes.append((line, sr.last))
                 return r
             sr.do = do
-            ov = Overlay(sr, u, cfg, n, layer_kind=params.get('layer_kind', 'mem'), lower_markers=params.get('lower_markers', False))
+            if params.get('plain'):
+                ov = PlainFS(sr, u, cfg, kind=params['plain'])
+            else:
+                ov = Overlay(sr, u, cfg, n, layer_kind=params.get('layer_kind', 'mem'), lower_markers=params.get('lower_markers', False))
             t = ov.model
             removed = set()
-            names = 'ovl%d' % n
+            names = ('ovl%d' % n) if not params.get('plain') else params['plain']
             prev = []
             def check_lower(key_base, op, v):
                 # C08 (ii): every lower layer is unchanged, observed through its own root
